@@ -29,6 +29,8 @@ func main() {
 		runC04HTTP(cfg)
 	case "c06http":
 		runC06HTTP(cfg)
+	case "c07http":
+		runC07HTTP(cfg)
 	default:
 		fmt.Fprintln(os.Stderr, "unknown VERIF_MODE", mode)
 		os.Exit(2)
